@@ -51,6 +51,12 @@ def _make_method(name):
 class Rec:
     _run = None
     ix = -1
+    truth = True
+
+    def __bool__(self):
+        # some handlers are falsy objects (think of a container-like component that is empty right now):
+        # they are handlers all the same
+        return self.truth
 
     def __repr__(self):
         return '<%s#%d>' % (type(self).__name__, self.ix)
@@ -302,6 +308,9 @@ class Run:
             h = self.classes[ci]()
             h._run = self
             h.ix = ix
+            h.truth = (self.case['handlers'][ix] + ix) % 3 != 0
+            if not h.truth:
+                self.flags['falsy_handler'] += 1
             self.handlers.append(h)
         self.strangers = [self.classes[handler_classes[0]]() for _ in range(2)]
         self.d = desper.EventDispatcher()
